@@ -585,3 +585,75 @@ def gen_runner_case(rng, tier, profile="matching", **kw):
             if s.get("maxNormalOrders") == 0 and rng.random() < 0.8:
                 s["maxNormalOrders"] = 3
     return {"drive": "runner", "seed": rng.randrange(1 << 31), "config": cfg, "profile": profile}
+
+
+def gen_accounting_case(rng, tier, hostile=None, hft=None):
+    """workload for the life-cycle monitors: several markets, normal and HFT scripted agents that cancel
+    (resting, partly filled, filled, expired, already cancelled orders), quote both sides (self-trades),
+    short and absent ttl, placement-only sessions followed by execution sessions (batch clearing)."""
+    n_spot = rng.choice([1, 2, 2, 3])
+    cfg = {"simulation": {"markets": [], "agents": [], "sessions": []}}
+    names = []
+    for i in range(n_spot):
+        tick = rng.choice([1.0, 0.5, 0.25, 0.1, 10.0])
+        cfg["S%d" % i] = {"class": "Market", "tickSize": tick, "marketPrice": rng.choice([40, 200, 900]) * tick,
+                          "outstandingShares": rng.choice([1000, 3000])}
+        if rng.random() < 0.4:
+            cfg["S%d" % i]["fundamentalVolatility"] = 0.002
+        names.append("S%d" % i)
+    cfg["simulation"]["markets"] = list(names)
+    if n_spot >= 2 and rng.random() < 0.3:
+        tot = sum(cfg[c]["outstandingShares"] for c in names)
+        cfg["IDX"] = {"class": "IndexMarket", "tickSize": 0.5,
+                      "marketPrice": sum(cfg[c]["marketPrice"] * cfg[c]["outstandingShares"] for c in names) / tot,
+                      "markets": list(names), "outstandingShares": 1000}
+        cfg["simulation"]["markets"].append("IDX")
+        names = names + ["IDX"]
+    ttl = [None, 1, 1, 2, 3, 5]
+
+    def prog():
+        sp = rng.randint(1, 4)
+        acts = [
+            [8, {"a": "limit", "side": "any", "off": [-sp, sp], "vol": [1, rng.choice([2, 6, 20])], "ttl": ttl,
+                 "offgrid": rng.choice([0.0, 0.2])}],
+            [rng.choice([1, 2]), {"a": "market", "side": "any", "vol": [1, 4], "ttl": ttl}],
+            [rng.choice([1, 3, 5]), {"a": "cancel", "which": rng.choice(["any", "any", "last", "oldest"])}],
+            [rng.choice([0, 2, 4]), {"a": "both", "off": [-2, 2], "vol": [1, 6], "ttl": ttl}],
+            [1, {"a": "nothing"}],
+        ]
+        return {"p_act": rng.choice([0.5, 0.8, 1.0]), "max_batch": rng.choice([1, 2, 3, 5]),
+                "actions": [a for a in acts if a[0] > 0]}
+
+    for g in range(rng.choice([1, 2, 3])):
+        mk = names if rng.random() < 0.7 else rng.sample(names, rng.randint(1, len(names)))
+        cfg["A%d" % g] = {"class": "ScriptAgent", "numAgents": rng.randint(1, 5), "markets": list(mk),
+                          "cashAmount": rng.choice([10000, {"uniform": [100, 100000]}]),
+                          "assetVolume": rng.choice([0, 30, {"uniform": [0, 100]}]), "program": prog()}
+        cfg["simulation"]["agents"].append("A%d" % g)
+    n_hft = hft if hft is not None else rng.choice([0, 1, 2, 3])
+    if n_hft:
+        cfg["H"] = {"class": "ScriptHFTAgent", "numAgents": n_hft, "markets": list(names), "cashAmount": 5000,
+                    "assetVolume": 10, "program": prog()}
+        cfg["simulation"]["agents"].append("H")
+    flags = rng.choice([
+        [(True, True)],
+        [(True, False), (True, True)],
+        [(True, True), (True, False), (True, True)],
+        [(False, False), (True, True)],
+        [(True, True), (True, True)],
+    ])
+    sessions = []
+    for i, (pl, ex) in enumerate(flags):
+        sessions.append({"sessionName": i, "iterationSteps": rng.choice([3, 6, 12, 25]), "withOrderPlacement": pl,
+                         "withOrderExecution": ex, "withPrint": False,
+                         "maxNormalOrders": rng.choice([1, 2, 3, 6]),
+                         "maxHighFrequencyOrders": rng.choice([1, 2, 3]),
+                         "highFrequencySubmitRate": rng.choice([0.5, 1.0])})
+    cfg["simulation"]["sessions"] = sessions
+    case = {"drive": "runner", "seed": rng.randrange(1 << 31), "config": cfg, "profile": "accounting"}
+    if hostile:
+        # one agent group carries the hostile action; it fires rarely so that the run first builds state
+        g = cfg[rng.choice([n for n in cfg["simulation"]["agents"]])]
+        g["program"]["actions"].append([1, {"a": hostile}])
+        case["hostile"] = hostile
+    return case
